@@ -113,6 +113,9 @@ type byzState struct {
 }
 
 var byzVerifiers = []string{"Verify", "Stump.Update", "Pollard.Verify", "MapPollard.Verify", "MapPollard(partial).Verify", "VerifyPartialProof",
+	// the partial-proof entry point on the full forest too (it holds every leaf, so
+	// fast paths that look at stored leaves are reachable there)
+	"VerifyPartialProof(full)",
 	// the remembering variants mutate the forest, so each call gets a private copy of the instance
 	"MapPollard.Verify(remember)", "MapPollard(partial).Verify(remember)", "VerifyPartialProof(remember)"}
 
@@ -856,6 +859,11 @@ func (e *byzEngine) evaluate(bs *byzState, c Claim, prog *byzProgress, stats *St
 				continue
 			}
 			call = func() error { return bs.mpPart.VerifyPartialProof(proof.Targets, hashes, proof.Proof, false) }
+		case "VerifyPartialProof(full)":
+			if bs.mpFull == nil {
+				continue
+			}
+			call = func() error { return bs.mpFull.VerifyPartialProof(proof.Targets, hashes, proof.Proof, false) }
 		case "MapPollard.Verify(remember)", "MapPollard(partial).Verify(remember)", "VerifyPartialProof(remember)":
 			src := map[string]*u.MapPollard{"MapPollard.Verify(remember)": bs.mpFull, "MapPollard(partial).Verify(remember)": bs.mpPart2, "VerifyPartialProof(remember)": bs.mpPart}[ver]
 			base := ver[:len(ver)-len("(remember)")]
@@ -930,7 +938,7 @@ func (e *byzEngine) evaluate(bs *byzState, c Claim, prog *byzProgress, stats *St
 				// map forests also read positions in the numbering of their allocated height
 				var mp *u.MapPollard
 				switch ver {
-				case "MapPollard.Verify", "MapPollard.Verify(remember)":
+				case "MapPollard.Verify", "MapPollard.Verify(remember)", "VerifyPartialProof(full)":
 					mp = bs.mpFull
 				case "MapPollard(partial).Verify", "MapPollard(partial).Verify(remember)":
 					mp = bs.mpPart2
